@@ -263,6 +263,26 @@ def grid(quick):
         for j, (fn, kind) in enumerate(fks):
             ch = rot(PSD_LEAF_CHILDREN) if _takes_child(root) else None
             cells.append(_cell("I", root, ch, True, B[(ri + j) % len(B)], fn, kind, "all", chol_mode(fn)))
+    # ---- J: the CG / stochastic-Lanczos-quadrature path (max_cholesky_size 0) with an ACTIVE preconditioner (AddedDiag-type
+    # operators, min_preconditioning_size lowered, pivoted-Cholesky rank 2 < n); every output carries random weights, so the
+    # upstream gradients of logdet / inv_quad are != 1 and differ per batch member
+    jroots = [("AddedDiag", c) for c in ("Dense", "Toeplitz", "Root", "Kron", "ConstantMul")] + \
+             [("KronAddedDiag", "Dense"), ("LowRankRootAddedDiag", None)]
+    jspecials = ["psd_added_interp", "psd_added_kernel", "psd_added_masked"]
+    jfns = [("logdet", None), ("inv_quad_logdet", "batched"), ("iql_split", "ld_only"), ("iql_split", "iq_only"),
+            ("solve", "batched"), ("inv_quad", "batched")]
+    jcells = [(r, c, None) for r, c in jroots] + [("AddedDiag", None, sp_) for sp_ in jspecials]
+    for ji, (root, child, sp_) in enumerate(jcells):
+        fks = [jfns[(ji + j * 2) % len(jfns)] for j in range(2)] + ([("logdet", None)] if ji % 2 else []) if quick else jfns
+        done_j = set()
+        for j, (fn, kind) in enumerate(fks):
+            if (fn, kind) in done_j:
+                continue
+            done_j.add((fn, kind))
+            for bt in ([B[(ji + j) % len(B)]] if quick else B):
+                c_ = _cell("J", root, child, True, bt, fn, kind, "all" if quick else "rot", "no", m=4, special=sp_)
+                c_["chol0"], c_["precond"] = "yes", True
+                cells.append(c_)
     # ---- G: witnesses of the pinned tree's defects (dedicated cells; the seed only picks values)
     for s in G_SPECIALS:
         kinds = {"toeplitz_mid1": [("matmul", "batched"), ("matmul", "bcast3")],
@@ -656,7 +676,8 @@ def key_of(case, raw, rgkind):
     off = raw.get("offender") or {}
     return {"layer": "autograd", "fn": case["fn"], "fn_kind": case["fn_args"].get("kind"), "root": e["cls"],
             "tree": ob.describe(e), "leaf_cls": off.get("owner", "?"), "fail": raw.get("fail"),
-            "me": bool(case["me"]), "chol0": bool(case["chol0"]), "batch": str(batch_of(e)), "rg": rgkind,
+            "me": bool(case["me"]), "chol0": bool(case["chol0"]), "precond": bool(case.get("precond")),
+            "batch": str(batch_of(e)), "rg": rgkind,
             "forward_agrees": bool(raw.get("forward_agrees")) if raw.get("forward_agrees") is not None else False,
             "has_chol_upper": has_up, "has_identity": has_id, "classes": ",".join(L.classes_of(e)),
             "phase": raw.get("phase"), "exc": (raw.get("error") or "").split(":")[0] or None,
@@ -685,7 +706,8 @@ def rg_kind_of(mask, rhs_rg, has_rhs):
 def replay_of(case):
     return {"expr": copy.deepcopy(case["expr"]), "fn": case["fn"], "fn_args": copy.deepcopy(case["fn_args"]),
             "rg_mask": [bool(x) for x in (case.get("rg_mask") or [])], "rhs_rg": bool(case.get("rhs_rg", True)),
-            "me": bool(case["me"]), "chol0": bool(case["chol0"]), "seed": int(case["seed"])}
+            "me": bool(case["me"]), "chol0": bool(case["chol0"]), "seed": int(case["seed"]),
+            "precond": bool(case.get("precond"))}
 
 
 def evaluate(case, check_memeff=False):
@@ -740,6 +762,7 @@ def replay_case(replay):
     case = {"expr": e, "fn": replay["fn"], "fn_args": copy.deepcopy(replay["fn_args"]),
             "rg_mask": list(replay["rg_mask"]) if replay.get("rg_mask") is not None else None,
             "rhs_rg": replay.get("rhs_rg", True), "me": bool(replay["me"]), "chol0": bool(replay["chol0"]),
+            "precond": bool(replay.get("precond")),
             "seed": int(replay["seed"])}
     try:
         raw, _ = evaluate(case, check_memeff=True)
@@ -922,7 +945,9 @@ def run_cell(cell, seed, want_sample=False, do_shrink=True):
     if not plan:
         out["ungenerated"] = "no differentiable input (no float leaf, no right-hand side)"
         return out
-    if cell["chol0"] == "both":
+    if cell["chol0"] == "yes":
+        chols = [True]
+    elif cell["chol0"] == "both":
         chols = [False, True]
     elif cell["chol0"] == "rot":
         chols = [bool(cell.get("idx", 0) % 2)]
@@ -932,7 +957,7 @@ def run_cell(cell, seed, want_sample=False, do_shrink=True):
         for chol0 in chols:
             grads = {}
             for me in (False, True):
-                case = dict(base, rg_mask=list(mask), rhs_rg=rhs_rg, me=me, chol0=chol0)
+                case = dict(base, rg_mask=list(mask), rhs_rg=rhs_rg, me=me, chol0=chol0, precond=bool(cell.get("precond")))
                 try:
                     raw, opr = evaluate(case)
                     grads[me] = (raw, opr)
